@@ -5,6 +5,10 @@
 package vsync
 
 import (
+	"fmt"
+	"reflect"
+	"unsafe"
+
 	"verif/shim/vsched"
 )
 
@@ -18,10 +22,62 @@ type state struct {
 // (zero value, or left over from an earlier execution), in which case the caller resets its own fields.
 func (s *state) init(label string) bool {
 	if s.obj == nil || !s.obj.Fresh() {
-		*s = state{obj: vsched.NewObj(label)}
+		// first use of a zero value: no canonical identity (see vsched.NewObjLazy)
+		*s = state{obj: vsched.NewObjLazy(label)}
 		return true
 	}
 	return false
+}
+
+// Init gives a zero-value Mutex / RWMutex / WaitGroup / Once its identity at its creation point (the
+// rewriter inserts the call after `var x sync.T`), so that the object is known to the scheduler under a
+// schedule-independent name.  p must be a pointer to one of those types.
+func Init(p interface{}, label string) {
+	switch x := p.(type) {
+	case *Mutex:
+		*x = Mutex{s: state{obj: vsched.NewObj(label)}}
+	case *RWMutex:
+		*x = RWMutex{s: state{obj: vsched.NewObj(label)}}
+	case *WaitGroup:
+		*x = WaitGroup{s: state{obj: vsched.NewObj(label)}}
+	case *Once:
+		*x = Once{s: state{obj: vsched.NewObj(label)}}
+	default:
+		panic(fmt.Sprintf("vsync.Init: unsupported type %T", p))
+	}
+}
+
+var (
+	tMutex     = reflect.TypeOf(Mutex{})
+	tRWMutex   = reflect.TypeOf(RWMutex{})
+	tWaitGroup = reflect.TypeOf(WaitGroup{})
+	tOnce      = reflect.TypeOf(Once{})
+)
+
+// InitFields calls Init on every direct field of struct *p that is a vsync object (the rewriter wraps
+// `&T{...}` composite literals of such structs) and returns p.
+func InitFields[T any](p *T, label string) *T {
+	v := reflect.ValueOf(p).Elem()
+	if v.Kind() != reflect.Struct {
+		panic("vsync.InitFields: not a struct")
+	}
+	t := v.Type()
+	for i := 0; i < t.NumField(); i++ {
+		f := t.Field(i)
+		ptr := unsafe.Pointer(v.Field(i).UnsafeAddr())
+		l := label + "." + f.Name
+		switch f.Type {
+		case tMutex:
+			Init((*Mutex)(ptr), l)
+		case tRWMutex:
+			Init((*RWMutex)(ptr), l)
+		case tWaitGroup:
+			Init((*WaitGroup)(ptr), l)
+		case tOnce:
+			Init((*Once)(ptr), l)
+		}
+	}
+	return p
 }
 
 // Locker mirrors sync.Locker.
